@@ -65,7 +65,7 @@ def main(ctx):
 
     def wide(i, c):
         return recipe.tlc_only('cond-wide%d' % i, 'Cond', constants=c, invariants=INV,
-                               properties=PROPS, workers=6, timeout=2400, heap='6g')
+                               properties=PROPS, workers=6, timeout=1800, heap='6g', budget_ok=True)
 
     def walks():
         return recipe.tlc_only('cond-walks', 'Cond', constants=WALKS, invariants=INV,
